@@ -142,7 +142,9 @@ let show_digest (d : dig) =
     "l2v=" ^ show_dict (fun (a, b) -> Printf.sprintf "%d:%d" a b) (nn d.d_l2v);
     "ll=" ^ (match d.d_last_len with None -> "none"
                                    | Some n -> string_of_int (int_of_nat n));
-    "ctx=" ^ (if d.d_rctx then "T" else "F") ]
+    "ctx=" ^ (if d.d_rctx then "T" else "F");
+    "mx=" ^ (match d.d_max_nodes with None -> "none"
+                                    | Some n -> string_of_int (int_of_pos n)) ]
 
 (* ---- operations ---- *)
 let rec parse_op2 name (args : arg list) : op2 =
@@ -189,6 +191,7 @@ and parse_op name (args : arg list) : op =
   | "set_last_len", [l] -> OSetLastLen (a_opt a_nat l)
   | "set_trig", [k] -> OSetTrig (a_opt a_nat k)
   | "set_roots", [r] -> OSetRoots (a_list a_z r)
+  | "set_max_nodes", [n] -> OSetMaxNodes (a_opt a_pos n)
   | "cofactor", [u; bn; vals] ->
       OCofactor (a_z u, a_byname bn, a_list (a_pair a_nat a_bool) vals)
   | "quantify", [u; bn; q; fa] ->
